@@ -214,17 +214,42 @@ def run(ctx):
                     ctx.sample({"sql": " ".join(s.split()), "lint": msg})
     ctx.floor("sql:announcements", n, 1, "gossip upsert statement")
 
-    # 5. the relayer is recorded whenever the announcement is stored or recognised as a duplicate
+    # 5. the relayer is recorded whenever the announcement is stored, or found to be a duplicate of the stored one
     push = [bb for bb, callee in rules.field_mut_calls(ha, "relayed_by")]
     ctx.floor("relayed_by:record", len(push), 1, "relayed_by recording site")
-
-    def stored_or_dup(f):
-        return f[0] == "variant" and f[4] and f[3] == "Ok" and cfg.callee_is(base_value(f[1]), re.compile(ANN))
-    edges = rules.edges_where(db, ha, stored_or_dup)
     rets = rules.ret_blocks(ha)
-    for (b0, tb, lab) in edges:
+
+    def id_known(f):
+        """a gossip-store call for this announcement produced Some(id)"""
+        if f[0] != "variant" or not f[4] or f[3] != "Some":
+            return False
+        b = base_value(f[1])
+        return b[0] == "call" and re.search(r"gossip::store::Store::\w+$", b[1].get("n") or "") is not None and "gossip" in nshow(b)
+    okp = True
+    nk = 0
+    for (b0, tb, lab) in rules.edges_where(db, ha, id_known):
+        nk += 1
         blocks = g.reach_k([(tb, g.edge_know(b0, tb, lab, frozenset()) or frozenset())], avoid_blocks=push)
         bad = [r for r in rets if r in blocks]
-        ctx.check("pair:relayer-recorded", not bad,
-                  "every path on which the gossip store accepted or recognised the announcement records the relayer in relayed_by",
-                  rules.where(ha, b0), detail={"path": g.path_k(blocks, bad[0]) if bad else None}, fn=ha)
+        if bad:
+            okp = False
+            ctx.violated("pair:relayer-recorded", "a path on which the gossip store identified the announcement (id known) returns without recording the relayer",
+                         rules.where(ha, b0), detail={"path": g.path_k(blocks, bad[0])}, fn=ha)
+    if okp:
+        ctx.check("pair:relayer-recorded", nk >= 1, "whenever the gossip store yields the announcement's id (new or duplicate), the relayer is recorded in relayed_by (%d edges)" % nk,
+                  rules.where(ha), fn=ha)
+    # a duplicate (announced() == Ok(None)) must be looked up so that its relayer can be recorded
+    def dup(f):
+        return f[0] == "variant" and f[4] and f[3] == "None" and cfg.callee_is(base_value(f[1]), re.compile(ANN))
+    lookups = [bb for bb, t, c in db.calls(ha) if re.search(r"gossip::store::Store::\w+$", c.get("n") or "") and not re.search(ANN, c.get("n") or "")
+               and "Option<u64>" in ha["locals"][t[3][0]][0]]
+    okd = True
+    nd = 0
+    for (b0, tb, lab) in rules.edges_where(db, ha, dup):
+        nd += 1
+        blocks = g.reach_k([(tb, g.edge_know(b0, tb, lab, frozenset()) or frozenset())], avoid_blocks=lookups)
+        if any(r in blocks for r in rets):
+            okd = False
+    ctx.check("pass:duplicate-lookup", okd and nd >= 1 and bool(lookups),
+              "an announcement the store did not accept is looked up in the store (so that a duplicate delivery records its relayer) before returning",
+              rules.where(ha), fn=ha)
